@@ -9,24 +9,44 @@ open Spec Opt
 
 variable {c : SCfg}
 
-/-- the value an integer of kind `k` (ranked at or below `int`) is compared at against an `int` -/
-def toI (k : Kind) (x : Int) : Int := if k = .int then x else wrap .int x
+/-- kinds whose comparison with an `int` bound is exact: `int`, the unsigned kinds (the operand is converted
+    to `int`) and `int64` (the bound is converted to `int64`, which is the same 64-bit range) -/
+def RangeK (k : Kind) : Prop := k.rank ≤ Kind.int.rank ∨ k = .int64
 
-theorem cmp_ge (k : Kind) (x a : Int) (hk : k.rank ≤ Kind.int.rank) :
+/-- the value an integer of kind `k` is compared at against an `int` bound -/
+def toI (k : Kind) (x : Int) : Int := if k = .int ∨ k = .int64 then x else wrap .int x
+
+theorem wrap64_of_inRange {n : Int} (h : inRange .int n) : wrap .int64 n = n := by
+  simp only [inRange, Kind.isSigned, Kind.bits, if_true] at h
+  simp only [wrap, Kind.isSigned, Kind.bits, if_true]
+  omega
+
+theorem cmp_ge (k : Kind) (x a : Int) (hk : RangeK k) (ha : inRange .int a) :
     binHelper .moreOrEqual (.int k x) (.int .int a) = .ok (.bool (decide (toI k x ≥ a))) := by
-  cases k <;> first | rfl | (simp [Kind.rank] at hk)
+  rcases hk with hk | rfl
+  · cases k <;> first | rfl | (simp [Kind.rank] at hk)
+  · show binHelper .moreOrEqual (.int .int64 x) (.int .int a) = _
+    simp [binHelper, refSem, armTypeOf, Helper.noFloat, Kind.maxRank, Kind.rank, applyOp, Helper.op, conv, toI,
+      wrap64_of_inRange ha]
 
-theorem cmp_le (k : Kind) (x a : Int) (hk : k.rank ≤ Kind.int.rank) :
+theorem cmp_le (k : Kind) (x a : Int) (hk : RangeK k) (ha : inRange .int a) :
     binHelper .lessOrEqual (.int k x) (.int .int a) = .ok (.bool (decide (toI k x ≤ a))) := by
-  cases k <;> first | rfl | (simp [Kind.rank] at hk)
+  rcases hk with hk | rfl
+  · cases k <;> first | rfl | (simp [Kind.rank] at hk)
+  · show binHelper .lessOrEqual (.int .int64 x) (.int .int a) = _
+    simp [binHelper, refSem, armTypeOf, Helper.noFloat, Kind.maxRank, Kind.rank, applyOp, Helper.op, conv, toI,
+      wrap64_of_inRange ha]
 
-theorem equalV_int (k : Kind) (x e : Int) (hk : k.rank ≤ Kind.int.rank) :
+theorem equalV_int (k : Kind) (x e : Int) (hk : RangeK k) (he : inRange .int e) :
     equalV (.int .int e) (.int k x) = (e == toI k x) := by
-  cases k <;> first | rfl | (simp [Kind.rank] at hk)
+  rcases hk with hk | rfl
+  · cases k <;> first | rfl | (simp [Kind.rank] at hk)
+  · simp [equalV, refSem, armTypeOf, Helper.noFloat, Kind.maxRank, Kind.rank, applyOp, Helper.op, conv, toI,
+      wrap64_of_inRange he]
 
-theorem any_rangeElems (a b : Int) (k : Kind) (x : Int) (hk : k.rank ≤ Kind.int.rank) :
+theorem any_rangeElems (a b : Int) (k : Kind) (x : Int) (hk : RangeK k) (ha : inRange .int a) (hb : inRange .int b) :
     (rangeElems a b).any (fun e => equalV e (.int k x)) = (decide (toI k x ≥ a) && decide (toI k x ≤ b)) := by
-  have hy : ∀ e : Int, equalV (.int .int e) (.int k x) = (e == toI k x) := fun e => equalV_int k x e hk
+  have hy : ∀ e : Int, inRange .int e → equalV (.int .int e) (.int k x) = (e == toI k x) := fun e he => equalV_int k x e hk he
   generalize toI k x = y at *
   simp only [rangeElems]
   split
@@ -37,17 +57,26 @@ theorem any_rangeElems (a b : Int) (k : Kind) (x : Int) (hk : k.rank ≤ Kind.in
     omega
   · rename_i h
     rw [Bool.eq_iff_iff]
-    simp only [List.any_map, List.any_eq_true, List.mem_range, Function.comp, hy, beq_iff_eq, Bool.and_eq_true,
+    simp only [List.any_map, List.any_eq_true, List.mem_range, Function.comp, Bool.and_eq_true,
       decide_eq_true_eq]
+    have hin : ∀ i : Nat, i < (b - a + 1).toNat → inRange .int (a + (i : Int)) := by
+      intro i hi
+      simp only [inRange, Kind.isSigned, Kind.bits, if_true] at ha hb ⊢
+      omega
     constructor
-    · rintro ⟨i, hi, rfl⟩; omega
+    · rintro ⟨i, hi, he⟩
+      rw [hy _ (hin i hi)] at he
+      have : a + (i : Int) = y := by simpa using he
+      omega
     · rintro ⟨h1, h2⟩
-      exact ⟨(y - a).toNat, by omega, by omega⟩
+      refine ⟨(y - a).toNat, by omega, ?_⟩
+      rw [hy _ (hin _ (by omega))]
+      simp; omega
 
 /-- the left operand can be evaluated twice and compared at kind `int`: its evaluation does not touch
-    the state (no calls, no allocation) and yields an integer of kind `int` or an unsigned kind -/
+    the state (no calls, no allocation) and yields an integer of kind `int`, `int64` or an unsigned kind -/
 def RangeLeftOK (c : SCfg) (l : Node) : Prop :=
-  ∀ ctx, ∃ r : R Val, eval c ctx l = SM.lift r ∧ ∀ v, r = .ok v → ∃ k x, v = .int k x ∧ k.rank ≤ Kind.int.rank
+  ∀ ctx, ∃ r : R Val, eval c ctx l = SM.lift r ∧ ∀ v, r = .ok v → ∃ k x, v = .int k x ∧ RangeK k
 
 def InRangeOK (c : SCfg) : Node → Prop
   | .binary _ op l (.binary _ rop (.int mf a) (.int mt b)) =>
@@ -91,11 +120,11 @@ theorem eval_not (ctx : Ctx) (m : Meta) (x : Node) :
 
 /-- the conjunction the rewrite produces, evaluated for a left operand that is a pure integer -/
 theorem eval_conj (ctx : Ctx) (m mg ml mf mt : Meta) (l : Node) (a b : Int) (k : Kind) (x : Int)
-    (ha : IntLitOK mf a) (hb : IntLitOK mt b) (hl : eval c ctx l = SM.lift (.ok (.int k x))) (hk : k.rank ≤ Kind.int.rank) :
+    (ha : IntLitOK mf a) (hb : IntLitOK mt b) (hl : eval c ctx l = SM.lift (.ok (.int k x))) (hk : RangeK k) :
     eval c ctx (.binary m "and" (.binary mg ">=" l (.int mf a)) (.binary ml "<=" l (.int mt b))) =
       pure (.bool (decide (toI k x ≥ a) && decide (toI k x ≤ b))) := by
   rw [eval_and, eval_ge ctx mg mf l a ha, eval_le ctx ml mt l b hb, hl, lift_ok]
-  simp only [pure_bind, cmp_ge k x a hk, cmp_le k x b hk, lift_ok, asBool]
+  simp only [pure_bind, cmp_ge k x a hk ha.2, cmp_le k x b hk hb.2, lift_ok, asBool]
   cases decide (toI k x ≥ a) <;> simp
 
 theorem inRange_sound (fl : Flags) (N : Node) (hg : InRangeOK c N) (st : St) : Sim c (inRangeRule fl N st).1 N := by
@@ -137,13 +166,13 @@ theorem inRange_sound (fl : Flags) (N : Node) (hg : InRangeOK c N) (st : St) : S
               rw [eval_conj ctx m {} {} mf mt l a b k x ha hb hl hk, hl, lift_ok]
               simp only [pure_bind, bind_assoc]
               refine RelM.skip_allocBefore _ _ _ hc ?_
-              simp only [pure_bind, inV, any_rangeElems a b k x hk, lift_ok]
+              simp only [pure_bind, inV, any_rangeElems a b k x hk ha.2 hb.2, lift_ok]
               cases neg <;> simp only [Bool.false_eq_true, if_false, if_true, Bool.false_bne, Bool.true_bne, notV, lift_ok] <;>
                 exact RelM.pure _
           rcases hop with rfl | rfl
           · simp only [String.reduceBEq, Bool.false_eq_true, if_false]
             refine sim_of_ev' rfl rfl rfl rfl ?_ (fun ctx => ?_)
-            · simp only [patch, Node.withMeta, reOK, Bool.and_eq_true, Bool.and_true, Bool.and_self]
+            · simp only [patch, Node.withMeta, reOK, Bool.and_true, Bool.and_self]
               exact fun h => h
             · simp only [patch, Node.withMeta, Node.getMeta]
               rw [eval_in]
@@ -151,7 +180,7 @@ theorem inRange_sound (fl : Flags) (N : Node) (hg : InRangeOK c N) (st : St) : S
               simpa only [Bool.false_eq_true, if_false, bind_pure'] using this
           · simp only [String.reduceBEq, if_true]
             refine sim_of_ev' rfl rfl rfl rfl ?_ (fun ctx => ?_)
-            · simp only [patch, Node.withMeta, reOK, Bool.and_eq_true, Bool.and_true, Bool.and_self]
+            · simp only [patch, Node.withMeta, reOK, Bool.and_true, Bool.and_self]
               exact fun h => h
             · simp only [patch, Node.withMeta, Node.getMeta]
               rw [eval_notin, eval_not]
